@@ -17,7 +17,6 @@ import (
 	"github.com/attestantio/vouch/services/blockrelay"
 	v2 "github.com/attestantio/vouch/services/blockrelay/v2"
 	nullmetrics "github.com/attestantio/vouch/services/metrics/null"
-	"github.com/rs/zerolog"
 	"golang.org/x/sync/semaphore"
 )
 
@@ -47,7 +46,7 @@ type relayQuietAccounts struct{ c12Accounts }
 // harness then puts its own collaborators in place.
 func relayNew(ct *vstub.ChainTime) *Service {
 	quiet := &relayQuietAccounts{c12Accounts{mode: 2}}
-	s, err := New(context.Background(), WithLogLevel(zerolog.Disabled), WithMonitor(&nullmetrics.Service{}),
+	s, err := New(context.Background(), WithLogLevel(vnd.LogLevel()), WithMonitor(&nullmetrics.Service{}),
 		WithMajordomo(&c12Majordomo{outcome: docFetchError}), WithScheduler(&vstub.Scheduler{}), WithListenAddress("localhost:0"), WithChainTime(ct),
 		WithConfigURL("file:///config.json"), WithFallbackFeeRecipient(c12Fallback), WithFallbackGasLimit(30000000),
 		WithAccountsProvider(c09AccountsByKey{}), WithValidatorsProvider(startupValidators{}), WithValidatingAccountsProvider(quiet),
@@ -85,7 +84,7 @@ func VerifC12_NewThenUse() {
 	ct := vstub.NewChainTime(0)
 	vnd.Assume(ct.CurrentSlot() < 1<<26) // instants stay within int64 nanoseconds
 	node := &c11Node{name: "node-a"}
-	s, err := New(context.Background(), WithLogLevel(zerolog.Disabled), WithMonitor(&nullmetrics.Service{}),
+	s, err := New(context.Background(), WithLogLevel(vnd.LogLevel()), WithMonitor(&nullmetrics.Service{}),
 		WithMajordomo(m), WithScheduler(sched), WithListenAddress("localhost:0"), WithChainTime(ct),
 		WithConfigURL("file:///config.json"), WithFallbackFeeRecipient(c12Fallback), WithFallbackGasLimit(30000000),
 		WithAccountsProvider(c09AccountsByKey{}), WithValidatorsProvider(startupValidators{}), WithValidatingAccountsProvider(a),
